@@ -1,13 +1,13 @@
 """C02 — parse returns the longest match; parse_all accepts only whole-input matches."""
 import engine_common as E
 
-VFILES = ["props/C02.v"]
+VFILES = ["props/C02.v", "props/C02den.v"]
 ASSUMPTIONS = ["as C01"]
 CLASSES = {"parse"}
 
 
 def run(ctx):
-    cov, viol = E.run_engine(ctx, "c02", ["plain"], 240, 6000, CLASSES)
+    cov, viol = E.run_engine(ctx, "c02", ["plain", "flags"], 200, 6000, CLASSES)
     return {"coverage": cov, "violations": viol}
 
 
